@@ -9,6 +9,8 @@
   — TBE's precondition on the branch ids of the reference.
 -/
 import Gotree.Lemmas.C10Wit
+import Gotree.Lemmas.C10Log
+import Gotree.Proofs.C05
 
 namespace Gotree.C10
 open Gotree
@@ -307,6 +309,132 @@ theorem represent_reference (r r' : T) (bs : List T) (h : hypOK r bs = true) (hp
 example : Pres wRef6 wRef6rot := Pres.rot _ _ wRef6_rot
 example : Pres wRef (unrootOp wRef) := Pres.unroot _ _ _ _ _ _ _ _ (by simp)
 
+/-! ## what else happens to the reference: names blanked, supports written back -/
+
+/-- Both functions blank the name of every internal node (`blankNames`); that changes
+    neither the split list nor the tips, and the two functions see the reference through
+    those only: a reference with internal names (or already annotated) is treated as the bare one. -/
+theorem names_irrelevant (r : T) (bs : List T) :
+    (blankNames r).splits = r.splits ∧ (blankNames r).tipNames = r.tipNames ∧
+    fbp (blankNames r) bs = fbp r bs ∧ tbe (blankNames r) bs = tbe r bs := by
+  obtain ⟨h1, h2⟩ := blankNames_same r
+  exact ⟨h1, h2, fbp_congr h1 h2 bs, tbe_congr h1 h2 bs⟩
+
+/-- The tree the functions leave (`annotated r sups`: names blanked, `sups` written on the
+    branches in `Edges()` order — compared literally with the implementation's α dump as a
+    fidelity figure) has the branches of `r` and carries exactly the supports of the theorems above. -/
+theorem annotated_tree (r : T) (bs : List T) (h : hypOK r bs = true) (hid : idsInRange r = true) :
+    ∃ f t, fbp r bs = .ok f ∧ tbe r bs = .ok t ∧
+      (annotated r f).splits.map (·.e.sup) = r.splits.map (fbpOf r bs) ∧
+      (annotated r t).splits.map (·.e.sup) = r.splits.map (tbeOf r bs) ∧
+      (annotated r f).splits.map (fun s => (s.below, s.tip)) = r.splits.map (fun s => (s.below, s.tip)) := by
+  refine ⟨_, _, fbp_eq_expected r bs h, tbe_eq_expected r bs h hid, ?_, ?_, ?_⟩
+  · exact (annotated_spec r _ (by simp [fbpExpected])).1
+  · exact (annotated_spec r _ (by simp [tbeExpected])).1
+  · exact (annotated_spec r _ (by simp [fbpExpected])).2
+
+/-! ## the `--moved-taxa` / `--per-branches` / `--out-raw` mode -/
+
+/-- With the log options `TBE` calls `MinTransferDist(…, absent = false)`: a full traversal that
+    also keeps every closest branch (`minTransferFull`, from which the model of the moved-taxa
+    and per-branch tables is computed and compared with the implementation's log).  Its distance
+    is the one of the plain traversal, hence — `mtd_correct` — the least transfer distance. -/
+theorem log_mode_distance (r b : T) (s : SplitE) (hr : treeOK r = true) (hb : treeOK b = true)
+    (hT : sameTaxa r b = true) (hs : s ∈ r.splits) (hp : 1 < topoDepth (ntips r) s) :
+    (minTransferFull (lightOf (ntips r) s) (topoDepth (ntips r) s) (ntips r) b).1 =
+      ((minTransfer (lightSide r.tipNames s.below) (ntips r) b : Nat) : Int) := by
+  obtain ⟨_, _, hroot, _⟩ := treeOK_facts b hb
+  rw [minTransferFull_dist _ _ _ b (by omega) hroot]
+  exact minTransferDist_eq_minTransfer r b s false hr hb hT hs hp (by intro h; cases h)
+
+/-! ## command-line glue -/
+
+/-- `gotree compute support fbp|tbe -i ref -b boots` on files without unterminated text, the
+    bootstrap file holding at least one tree: the reference is the FIRST tree of its file
+    (later trees and blank lines are ignored), the collection is every tree of the bootstrap
+    file in order (blank lines ignored), and the result is the library function on those. -/
+theorem cli_reads_files (f : T → List T → Out (List Rat)) (refFile bootFile : List (Item T))
+    (hr : noJunk refFile = true) (hb : noJunk bootFile = true) (hne : treesOf bootFile ≠ []) :
+    cliRun f refFile bootFile =
+      match (treesOf refFile).head? with
+      | none => .err
+      | some r => f r (treesOf bootFile) := by
+  unfold cliRun cliStream
+  rw [cliReference_first refFile hr,
+    cliStreamGo_clean bootFile 0 hb (by simpa using List.length_pos_iff.2 hne)]
+  cases (treesOf refFile).head? with
+  | none => rfl
+  | some r =>
+    have h1 : ((treesOf bootFile).map some).any Option.isNone = false := by
+      rw [List.any_eq_false]; intro x hx
+      obtain ⟨a, _, rfl⟩ := List.mem_map.1 hx
+      simp
+    have h2 : ((treesOf bootFile).map some).filterMap id = treesOf bootFile := by
+      rw [List.filterMap_map]; simp
+    simp only [h1, Bool.false_eq_true, if_false, h2]
+
+/-- A bootstrap file without any tree (empty, or blank lines only) is an error, not a
+    division by zero: the reader sends one erroneous item. -/
+theorem cli_no_bootstrap_tree_err (f : T → List T → Out (List Rat)) (refFile bootFile : List (Item T))
+    (hb : treesOf bootFile = []) (hj : noJunk bootFile = true) : cliRun f refFile bootFile = .err := by
+  have hs : ∀ (items : List (Item T)), treesOf items = [] → noJunk items = true →
+      cliStreamGo items false 0 = [none] := by
+    intro items
+    induction items with
+    | nil => intro _ _; rfl
+    | cons x r ih =>
+      intro h1 h2
+      cases x with
+      | tree a => simp [treesOf] at h1
+      | blank => simp only [cliStreamGo]; exact ih (by simpa [treesOf] using h1) (by simpa [noJunk] using h2)
+      | junk => simp [noJunk] at h2
+  unfold cliRun cliStream
+  rw [hs bootFile hb hj]
+  cases cliReference refFile <;> rfl
+
+example : cliRun fbp [.blank, .tree wRef, .tree wBoot] [.blank, .tree wBoot, .blank, .tree wBoot2, .blank] =
+    fbp wRef [wBoot, wBoot2] := rfl
+
+/-! ## bridge to C05: the Go operations themselves -/
+
+/-- What C05 proves of `Reroot`, `UnRoot`, `RotateInternalNodes`, `SortNeighborsByTips` …
+    (tip names, `usplits`, `tipLens` of the result are permutations of the original's) is
+    exactly the hypothesis of the presentation theorems above. -/
+theorem presentation_of_usplits (t u : T) (ht : treeOK t = true) (hu : treeOK u = true)
+    (hall : u.tipNames.Perm t.tipNames) (h1 : u.usplits.Perm t.usplits) (h2 : u.tipLens.Perm t.tipLens) :
+    sameTaxa t u = true ∧ splitsEquiv t.tipNames t u = true :=
+  splitsEquiv_of_usplits t u ht hu hall h1 h2
+
+theorem uniq_of_treeOK {t : T} (ht : treeOK t = true) : C05.uniq t = true := by
+  simp only [treeOK, reinitOk, Bool.and_eq_true] at ht
+  exact ht.1.1
+
+/-- C05's model of `Tree.Reroot` (any node, any path): the re-rooted tree is another
+    presentation — so by `replace_bootstrap_tree` / `reroot_or_rotate_reference` the
+    supports do not depend on where the Go code re-rooted a tree. -/
+theorem go_reroot_presentation (t t' : T) (p : List Nat) (ht : treeOK t = true) (ht' : treeOK t' = true)
+    (hl : C05.lensOK t = true) (h : C05.reroot t p = .ok t') :
+    sameTaxa t t' = true ∧ splitsEquiv t.tipNames t t' = true := by
+  obtain ⟨a, b, c, _⟩ := C05.P.reroot_preserves t t' p (uniq_of_treeOK ht) hl h
+  exact splitsEquiv_of_usplits t t' ht ht' a b c
+
+/-- C05's model of `Tree.UnRoot`. -/
+theorem go_unroot_presentation (t : T) (ht : treeOK t = true) (ht' : treeOK (C05.unroot t) = true)
+    (hl : C05.lensOK t = true) (hs : C05.supsOK t = true) :
+    sameTaxa t (C05.unroot t) = true ∧ splitsEquiv t.tipNames t (C05.unroot t) = true := by
+  obtain ⟨a, b, c, _⟩ := C05.P.unroot_preserves t (uniq_of_treeOK ht) hl hs
+  exact splitsEquiv_of_usplits t _ ht ht' a b c
+
+/-- C05's model of `Tree.RotateInternalNodes` (whatever the draws). -/
+theorem go_rotate_presentation (t : T) (draws : List Nat) (ht : treeOK t = true)
+    (ht' : treeOK (C05.rotate t draws) = true) (hl : C05.lensOK t = true) :
+    sameTaxa t (C05.rotate t draws) = true ∧ splitsEquiv t.tipNames t (C05.rotate t draws) = true := by
+  obtain ⟨a, b, c, _⟩ := C05.P.rotate_preserves t draws hl
+  exact splitsEquiv_of_usplits t _ ht ht' a b c
+
+example : treeOK wRef = true ∧ treeOK (C05.unroot wRef) = true ∧ C05.lensOK wRef = true ∧
+    C05.supsOK wRef = true := by decide
+
 /-! ## the oracle the driver evaluates is what the theorems are about -/
 
 /-- The Spec predicates that the driver evaluates on the *implementation's*
@@ -354,6 +482,21 @@ theorem fbp_rejects_head (r b : T) (bs : List T) (h : compareTips r b = false) :
     fbp r (b :: bs) = .err := by
   unfold fbp
   by_cases hr : reinitOk r <;> simp [hr, fbpLoop, h]
+
+/-- The rejection clause at the command line (with `cli_reads_files`): a bootstrap file holding a tree on
+    other taxa (anywhere) makes both commands fail. -/
+theorem cli_rejects_other_taxa (refFile bootFile : List (Item T)) (r : T)
+    (hr : noJunk refFile = true) (hb : noJunk bootFile = true)
+    (href : (treesOf refFile).head? = some r) (hrOK : treeOK r = true)
+    (hall : ∀ b ∈ treesOf bootFile, treeOK b = true) (hid : idsInRange r = true)
+    (hbad : ∃ b ∈ treesOf bootFile, sameTaxa r b = false) :
+    cliRun fbp refFile bootFile = .err ∧ cliRun tbe refFile bootFile = .err := by
+  have hne : treesOf bootFile ≠ [] := by
+    obtain ⟨b, hb', _⟩ := hbad
+    intro e; rw [e] at hb'; cases hb'
+  obtain ⟨e1, e2⟩ := different_taxa_err r (treesOf bootFile) hrOK hall hid hbad
+  rw [cli_reads_files fbp refFile bootFile hr hb hne, cli_reads_files tbe refFile bootFile hr hb hne, href]
+  exact ⟨e1, e2⟩
 
 /-! ## the repaired defects: the old behaviour, on concrete witnesses -/
 
